@@ -461,7 +461,15 @@ def well_formed_init(init):
 
 def run(ctx):
     rng = ctx.rng
+    # second tie: re-translate the listed primitives of spectrum_assignment.py / request.py from /repo's source; the
+    # equivalence lemmas of Proofs/SpectrumGen.v are then re-checked by check_props against what the code says now
+    from . import pygen
+    gen_ok, gen_msg = pygen.regenerate()
     ctx.proof = common.check_props('C14')
+    if not gen_ok:
+        ctx.proof['ok'] = False
+        ctx.proof['log'] = 'harness/pygen.py: ' + gen_msg + '\n' + ctx.proof.get('log', '')
+        ctx.proof['failed_file'] = 'theories/Gen/SpectrumGen.v (translation of /repo source failed)'
     ctx.rule = ('random request histories (1-14 requests, 1-6 OMS, random usable-band layouts and pre-occupied runs, '
                 'fixed/free N and M, 1-4 slots, in/out-of-grid N, first/last fit, uni/bidirectional OMS sets) driven '
                 'through the real pth_assign_spectrum and the Gallina model; a case is non-trivial when at least one '
@@ -517,6 +525,9 @@ def run(ctx):
                            {kk: v for kk, v in c.items() if not kk.startswith('_')},
                            impl=a[k] if k < len(a) else None, model=b[k] if k < len(b) else None)
     ctx.assumptions += [
+        'translator tie: harness/pygen.py (fail-closed Python-ast -> Gallina for mvalue_to_slots, slots_to_m, bitmap_sum, '
+        'select_candidate, OMS.assign_spectrum, compute_spectrum_slot_vs_bandwidth) is trusted; int(a / b) / ceil(a / b) '
+        'on integers are read as exact truncation / ceiling (true below 2^53); isinstance type guards are dropped',
         'fake path elements (objects with only an oms_id) stand for line elements; the OMS set of a real path is '
         'tied separately (oracle key path_oms and the planning-level run)',
         'initial OMS states are those built by Bitmap(...) from (n_min, n_max, guardband, cells); the model is '
